@@ -474,6 +474,11 @@ class GeminiServerProtocol(asyncio.Protocol):
                 if self.transport and error_response:
                     self.transport.write(error_response.encode("utf-8"))
                     self.transport.close()
+                elif self.transport:
+                    # Rejected without a message: still answer and close
+                    self._send_error_response(
+                        StatusCode.PERMANENT_FAILURE, "Request rejected"
+                    )
                 return
 
             # Middleware allowed request - continue routing
@@ -632,6 +637,11 @@ class GeminiServerProtocol(asyncio.Protocol):
                 if self.transport and error_response:
                     self.transport.write(error_response.encode("utf-8"))
                     self.transport.close()
+                elif self.transport:
+                    # Rejected without a message: still answer and close
+                    self._send_error_response(
+                        StatusCode.PERMANENT_FAILURE, "Request rejected"
+                    )
                 return
 
             self._start_titan_upload(client_ip)
